@@ -3,7 +3,7 @@ import fcntl, json, os, re, sys, time, traceback, random
 from vlib import *
 
 TRUSTED_BASE = [
-    "Coq 8.16.1 kernel (coqc full .vo builds; vm_compute used in reflective obligations; no native_compute)",
+    "Coq 8.16.1 kernel (coqc full .vo builds; vm_compute used in reflective obligations; no native_compute); thorough tier: coqchk -o on the property files, Axioms: <none>",
     "axioms: none declared; Print Assumptions of every property theorem is compared with the allowlist (target: Closed under the global context)",
     "translators gen/svx_grammar.py svx_keywords.py svx_wiring.py svx_statics.py (read /repo sources, emit coq/Gen/*.v); cross-checked by correspondence, fails closed",
     "extraction: Require Extraction + ExtrOcamlBasic only (its Extract Inductive for bool, option, unit, list, prod, sumbool, sumor; no Extract Constant); OCaml 4.13.1, dune 2.9.3, ocaml/*.ml drivers",
@@ -159,6 +159,18 @@ def prove(ctx, props_file, extra_targets=()):
     ctx.cov["theorems"] = theorems
     bad = scan_forbidden()
     ctx.obl("no-admitted-no-axiom-scan", "scan", not bad, "; ".join(bad[:10]))
+    if ctx.tier == "thorough":
+        # independent re-check of the compiled files of this property (and everything they depend on) with coqchk
+        t = time.time()
+        rc, out = sh(["coqchk", "-silent", "-o"] + QFLAGS + ["SV." + props_file], cwd=COQ, timeout=3000)
+        ax = re.search(r"\* Axioms:\s*(.*?)\n\s*\n", out, re.S)
+        axioms = ax.group(1).strip() if ax else "?"
+        clean = rc == 0 and axioms == "<none>" and all(("relying on %s: <none>" % w) in out or ("%s: <none>" % w) in out for w in
+                                                      ("type-in-type", "unsafe (co)fixpoints")) and "positivity is assumed: <none>" in out
+        ctx.obl("coqchk:%s re-checked by the independent checker, no axioms, no unsafe fixpoints, no assumed positivity" % props_file,
+                "coqchk", clean, "rc=%d axioms=%s (%.0fs)" % (rc, axioms[:200], time.time() - t))
+        ctx.cmds.append("coqchk -silent -o -Q ... SV.%s" % props_file)
+        allok = allok and clean
     return allok and not bad
 
 
